@@ -278,7 +278,7 @@ M = "scen_mem"
 FP = [(r'ToFree.*6delete', [r'ToFree.*3new.*7do_free'])]
 MEMRULES = queue_rules(retry=4, streams=3, ring=3, extra=[
     (r'ReadCursor::add_stream', 4), (r'ReadCursor::remove_reader', 4),
-    (r'MemoryManagerInner.*try_freeing', 26), (r'MemoryManagerInner.* as std::ops::Drop>::drop', 30), (r'verif_preload', 24),
+    (r'MemoryManagerInner.*try_freeing', 26), (r'MemoryManagerInner.* as std::ops::Drop>::drop', 30), (r'MemoryManager as std::ops::Drop>::drop', 30), (r'verif_preload', 24),
     (r'do_free', 3), (r'swap_nonoverlapping|swap_simple|swap_chunk', 6),
     (r'Vec.*clone|to_vec|retain|extend|spec_|Drain|drain|process_loop', 8)])
 for n, w in (("c17_teardown_mp", "mpmc"), ("c17_teardown_bc_stream", "broadcast with an added stream"), ("c17_teardown_bc_clone", "broadcast N=1 with cloned sender and receiver")):
